@@ -430,8 +430,10 @@ def check_flatten_before_finalise(prog, run):
                 return True
             return isinstance(e, ast.Lambda) and any(isinstance(n, ast.Call) and isinstance(n.func, ast.Name) and n.func.id == "GraphQLResult"
                                                       for n in ast.walk(e.body))
-        maps = [n for n in own_nodes(f.node) if isinstance(n, ast.Call) and isinstance(n.func, ast.Attribute) and n.func.attr == "map_value"
-                and len(n.args) >= 2 and is_finaliser(n.args[1])]
+        from ..canon import Canon
+        fcn = Canon(f.node)
+        maps = [n for n in own_nodes(f.node) if isinstance(n, ast.Call) and fcn.func_text(n).endswith(".map_value")
+                and len(n.args) >= 2 and is_finaliser(fcn.expr(n.args[1]))]
         if not maps:
             continue
         run.looked_at(f)
@@ -446,9 +448,11 @@ def check_flatten_before_finalise(prog, run):
             shapes.require(bool(paths), "C08.R9: no path of %s reaches its finalising map_value" % f.qualname)
             for k, st, env in paths:
                 calls = env.get(boolx.CALLS, ())
-                un = [c for c in calls if isinstance(c.func, ast.Attribute) and c.func.attr == "unwrap_value"]
-                if not un:
-                    cond = ", ".join("%s=%s" % kv for kv in sorted(env.items()) if kv[0] != boolx.CALLS)
+                un = [c for c in calls if fcn.func_text(c).endswith(".unwrap_value")]
+                given = fcn.expr(mcall.args[0])
+                direct = isinstance(given, ast.Call) and " ".join(ast.unparse(given.func).split()).endswith(".unwrap_value")
+                if not un or (isinstance(given, ast.Call) and not direct):
+                    cond = ", ".join("%s=%s" % kv for kv in sorted(env.items()) if kv[0] not in boolx.META)
                     run.report(r, "%s:%s:finalised-unflattened" % (f.module.name, f.qualname), f.where(mcall),
                                "on the path where %s the value given to map_value(_, <builds GraphQLResult>) has not been passed "
                                "through runtime.unwrap_value: a nested wrapped value (serial chain, deferred sub-selection) becomes "
@@ -628,7 +632,7 @@ def check_non_null_after_completion(prog, run, rule_id):
                             and any(isinstance(x, ast.Call) and isinstance(x.func, ast.Attribute) and x.func.attr == "complete_value" for x in ast.walk(c.args[0])):
                         ok = True
             if not ok:
-                cond = ", ".join("%s=%s" % kv for kv in sorted(env.items()) if kv[0] not in (boolx.CALLS, boolx.STMTS))
+                cond = ", ".join("%s=%s" % kv for kv in sorted(env.items()) if kv[0] not in boolx.META)
                 run.report(r, "%s:%s:completed-value-unchecked" % (mod, q), f.where(st),
                            "%s can return `%s` without passing the completed value to _handle_non_nullable_value (when %s): a null produced "
                            "by completion is not reported as `not nullable` under this executor" % (q, norm_stmt(st, 60), cond or "always"))
